@@ -231,7 +231,16 @@ def _note_key(n):
 def model_output(case, m):
     if m[0] == 1:
         return ['RAISED', EXN[m[1]]]
-    return ['OK', [_mtune(t) for t in m[1]], [EXN[e] for e in m[2]]]
+    out = ['OK', [_mtune(t) for t in m[1]], [EXN[e] for e in m[2]]]
+    EXPANSION_CHECKS[0] += sum(1 for f in m[3] if f == 1)
+    EXPANSION_CHECKS[1] += sum(1 for f in m[3] if f == 2)
+    if any(f == 2 for f in m[3]):
+        # model-level statement abc_expansion_notes fails on this tune: make it a divergence
+        out.append(['MODEL-EXPANDED-NOTES-DIFFER-FROM-UNROLLED-READING', m[3]])
+    return out
+
+
+EXPANSION_CHECKS = [0, 0]
 
 
 # ---------------------------------------------------------------- implementation
@@ -652,7 +661,9 @@ OUTSIDE_ESCAPES = {}
 
 
 def extra_evidence():
-    return {'foreign_exceptions_outside_the_quantified_grammar': dict(OUTSIDE_ESCAPES)}
+    return {'foreign_exceptions_outside_the_quantified_grammar': dict(OUTSIDE_ESCAPES),
+            'model_expanded_equals_unrolled_reading_tunes': EXPANSION_CHECKS[0],
+            'model_expanded_differs_from_unrolled_reading_tunes': EXPANSION_CHECKS[1]}
 
 
 def oracle(case, io):
